@@ -2,7 +2,7 @@
 import ast
 
 from .. import pyq, readerq
-from ..pysrc import dotted, norm
+from ..pysrc import dotted, norm, flat
 from ..readerq import HR, RD
 
 MODEL_CTORS = {"sym", "Symbol", "mkexpr", "Expression", "Keyword", "String", "List", "Integer"}
@@ -38,7 +38,7 @@ def check_positions(ctx, src, rq=None):
     ctx.ok("POS-OWNER", f"{HR}|no direct buffer access", "hy_reader.py never touches _peek_chars/_saved_chars/_stream")
     # --- getc arithmetic shape
     g = rq.methods["getc"][1]
-    t = " ".join(ast.unparse(g).split())
+    t = flat(g)
     ctx.check("line, col = self._pos col += 1 if c == '\\n': line += 1 col = 0 self._pos = (line, col)" in t, "POS-STEP", f"{RD}|Reader.getc|step", "getc must advance the column by one per character and start a new line exactly at '\\n'", RD, g.lineno,
               witness="CRLF source counts every line twice", detail="col += 1; on '\\n': line += 1, col = 0")
     ctx.check("if c: line, col = self._pos" in t, "POS-STEP", f"{RD}|Reader.getc|eof", "the end-of-input read must not advance the position", RD, g.lineno, detail="only when c")
@@ -55,7 +55,7 @@ def check_positions(ctx, src, rq=None):
     ctx.check(all(k in lines for k in ks) and [lines[k] for k in ks] == sorted(lines[k] for k in ks), "POS-FILL", f"{HR}|try_parse_one_form|capture order",
               "the start position must be captured after the first character is consumed and before the handler runs; the end after it", HR, tp.lineno, detail="getc; start; handler; fill_pos")
     rp = src.py("hy/models.py").func("Object.replace")
-    ctx.check(rp is not None and "if not hasattr(self, attr) and hasattr(other, attr): setattr(self, attr, getattr(other, attr))" in " ".join(ast.unparse(rp).split()), "POS-FILL", "hy/models.py|Object.replace",
+    ctx.check(rp is not None and "if not hasattr(self, attr) and hasattr(other, attr): setattr(self, attr, getattr(other, attr))" in flat(rp), "POS-FILL", "hy/models.py|Object.replace",
               "Object.replace must only fill positions that are still unset", "hy/models.py", 0, witness="a child's own position is overwritten by its parent's", detail="only unset attributes")
 
 
@@ -82,7 +82,7 @@ def check(ctx, src):
     ctx.require(ai is not None, "as_identifier not found")
     ctx.check(pyq.contains(ai, lambda n: isinstance(n, ast.Call) and norm(n) == "mkexpr(head, Symbol('None'), *args)") is not None, "POS-FRESH", f"{HR}|as_identifier|fresh None", "the implicit None of `.attr` forms must be a new Symbol each time", HR, ai.lineno, detail="Symbol('None') per form")
     m, ss = rq.methods["_set_source"]
-    t = " ".join(ast.unparse(ss).split())
+    t = flat(ss)
     for piece in ("self._peek_chars = deque()", "self._pos = (1, 0)"):
         ctx.check(piece in t, "SRC-RESET", f"{RD}|Reader._set_source|{piece}", f"_set_source no longer executes `{piece}`", RD, ss.lineno, detail="reset per source")
     ctx.assume("the line/column arithmetic is checked for its shape only; that regions delimit text that reads back to an equal model is a value-level relation and is not decided")
